@@ -383,7 +383,7 @@ MUTANTS = [
            lambda f, t: replace_stmt(f, lambda s: isinstance(s, ast.Assign) and u(s) == "uri = str(uri)", [ast.Pass()])),
     # ---- C20
     Mutant("C20", "key-comparison-inverted", "C20-R1", GW, "process_pyro_request",
-           lambda f, t: [setattr(c, "ops", [ast.Eq()]) for c in ast.walk(f) if isinstance(c, ast.Compare) and u(c) == "gateway_key != pyro_app.gateway_key"]),
+           lambda f, t: [setattr(c, "ops", [ast.Eq()]) for c in ast.walk(f) if isinstance(c, ast.Compare) and u(c).endswith("!= pyro_app.gateway_key")] or (_ for _ in ()).throw(LookupError("key comparison not found"))),
     Mutant("C20", "no-pattern-check", "C20-R1", GW, "process_pyro_request",
            lambda f, t: set_test(f, lambda e: "re.match(pyro_app.ns_regex" in u(e), "False")),
     Mutant("C20", "method-invoked-twice", "C20-R3", GW, "process_pyro_request",
